@@ -74,7 +74,8 @@ func (c *SegmentCache) SetSegment(topic string, partition int32, baseOffset int6
 	if elem, ok := c.items[key]; ok {
 		entry := elem.Value.(*cacheEntry)
 		c.size -= len(entry.data)
-		entry.data = append(entry.data[:0], data...)
+		// Readers may still hold the previous slice; never rewrite it in place.
+		entry.data = append([]byte(nil), data...)
 		c.size += len(entry.data)
 		c.ll.MoveToFront(elem)
 		c.evictIfNeeded()
